@@ -4,6 +4,17 @@ import Cose.Cbor.Decode
 -/
 namespace Cose.Cbor
 
+/-- fxamacker's `validBuiltinTag`, on the head that follows a tag number: tag 0 needs a text string, tag 1 an integer or
+    float, tags 2 and 3 a byte string (the raw counterpart of `tagContentOk`) -/
+def rawTagContentOk (t : Nat) (r : Bytes) : Bool :=
+  match decHead r with
+  | none => false
+  | some (mt, ai, _, _) =>
+    if t = 0 then mt == 3
+    else if t = 1 then mt == 0 || mt == 1 || (mt == 7 && (ai == 25 || ai == 26 || ai == 27))
+    else if t = 2 ∨ t = 3 then mt == 2
+    else true
+
 mutual
   /-- skip one well-formed definite-length item: the remaining bytes -/
   def skipItem : Nat → Bytes → Option Bytes
@@ -17,7 +28,7 @@ mutual
         else if mt = 2 ∨ mt = 3 then (if n ≤ r.length then some (r.drop n) else none)
         else if mt = 4 then skipItems f n r
         else if mt = 5 then skipItems f (2 * n) r
-        else skipItem f r
+        else skipItem f r     -- skipped members are only checked for well-formedness: built-in tags inside are not validated
   def skipItems : Nat → Nat → Bytes → Option Bytes
     | 0, _, _ => none
     | _ + 1, 0, bs => some bs
@@ -45,6 +56,14 @@ def rawUntag : Nat → Bytes → Bytes
     match decHead bs with
     | some (6, _, _, r) => rawUntag f r
     | _ => bs
+
+/-- the built-in tags among the enclosing tags carry admissible content -/
+def rawTagsOk : Nat → Bytes → Bool
+  | 0, _ => true
+  | f + 1, bs =>
+    match decHead bs with
+    | some (6, _, t, r) => rawTagContentOk t r && rawTagsOk f r
+    | _ => true
 
 /-- the raw encodings of the elements of a (possibly tagged) array item; `none` if it is not an array -/
 def rawArrayElems (bs : Bytes) : Option (List Bytes) :=
